@@ -255,3 +255,97 @@ Example C13_ex_vtt_writer :
   /\ vtt_language (mkCfg true false None None) lg = Err ERelativization
   /\ existsb (vtt_needs (mkCfg true false None None)) (flat_map (vtt_cue_layouts (nl_layout lg)) (nl_caps lg)) = true.
 Proof. vm_compute. repeat split. Qed.
+
+(* ==== wave 7: DFXPWriter(write_inline_positioning=True) and the region table ======================================= *)
+From PV Require Import spec.SpecPos7 proofs.Pos13InlineFacts.
+
+(* the set-level layout, too, is in percentages after the transformation (after `fix: DFXPWriter(write_inline_positioning=
+   True) wrote the absolute lengths of the set-level layout inline`) *)
+Theorem C13_dfxp_inline_writes_percentages : forall c s s', w_rel c = true -> dfxp_transform_inline c s = Ok s' ->
+  opt_all_pct (ns_layout s') = true /\ forallb opt_all_pct (written_layouts s') = true.
+Proof. exact dfxp_inline_writes_percentages. Qed.
+Print Assumptions C13_dfxp_inline_writes_percentages.
+
+(* completeness of the traversal for what is written INLINE: the attributes on every <div>, every <p> and every <span>
+   with a layout are those of the layout get_positioning_info picks (node, else caption, else language, else SET level);
+   whichever it picks, it went through the transformation - no element carries an absolute length *)
+Theorem C13_dfxp_inline_attributes_percent : forall c s s', w_rel c = true -> dfxp_transform_inline c s = Ok s' ->
+  forallb opt_all_pct (inline_layouts s') = true.
+Proof. exact dfxp_inline_attributes_percent. Qed.
+Print Assumptions C13_dfxp_inline_attributes_percent.
+
+Theorem C13_dfxp_inline_refused_iff : forall c s, w_rel c = true ->
+  ((exists e, dfxp_transform_inline c s = Err e) <-> existsb (opt_needs c) (ns_layout s :: written_layouts s) = true).
+Proof. exact dfxp_inline_refused_iff. Qed.
+Print Assumptions C13_dfxp_inline_refused_iff.
+
+Theorem C13_dfxp_inline_refuses_with_relativization_error : forall c s e, w_rel c = true ->
+  dfxp_transform_inline c s = Err e -> e = ERelativization.
+Proof. exact dfxp_inline_refuses_with_relativization_error. Qed.
+Print Assumptions C13_dfxp_inline_refuses_with_relativization_error.
+
+(* completeness for what is written as REGIONS: RegionCreator builds its table from the language / caption / node layouts
+   of the transformed set (C12's region_map), so every <region> of the document is made from a percentage layout *)
+Theorem C13_dfxp_regions_percent : forall c s s', w_rel c = true -> dfxp_transform c s = Ok s' ->
+  forall k id, In (k, id) (region_map (written_layouts s')) -> all_pct k = true.
+Proof. exact dfxp_regions_percent. Qed.
+Print Assumptions C13_dfxp_regions_percent.
+
+(* set-level origin 64px 36px, nothing else: with inline positioning the div and the p carry it - as 10% 10% with a
+   640x360 video, and the writer refuses without a video size *)
+Example C13_ex_inline :
+  let g := mkLayout (Some (mkPoint (mkSize (64 # 1) PX) (mkSize (36 # 1) PX))) None None None None in
+  let g' := mkLayout (Some (mkPoint (mkSize (10 # 1) PCT) (mkSize (10 # 1) PCT))) None None None None in
+  let s := mkNset (Some g) [mkNlang None [mkNcap None [mkNode 1 None]]] in
+  match dfxp_transform_inline (mkCfg true false (Some (640 # 1)) (Some (360 # 1))) s with
+  | Ok s' => inline_layouts s' = [Some g'; Some g'] | Err _ => False end
+  /\ dfxp_transform_inline (mkCfg true false None None) s = Err ERelativization
+  /\ existsb (opt_needs (mkCfg true false None None)) (ns_layout s :: written_layouts s) = true.
+Proof. vm_compute. repeat split. Qed.
+
+(* down to the TEXT of the DFXP document: with relativization on, the attribute strings printed for every <region>
+   (tts:origin / tts:extent / tts:padding through Size.__str__) read back - C12's model of the reader's
+   from_xml_attribute - as a layout whose lengths are all percentages.  Lengths non-negative (the size language). *)
+From PV Require Import proofs.DfxpTreeFacts proofs.Pos13DocFacts.
+Theorem C13_dfxp_document_regions_percent : forall c s s', w_rel c = true -> dfxp_transform c s = Ok s' ->
+  Forall opt_nonneg (written_layouts s') ->
+  forall id a, In (id, a) (map (fun kv => (snd kv, layout_attrs (fst kv))) (region_map (written_layouts s'))) ->
+  exists r, read_region a = Ok r /\ all_pct r = true.
+Proof. exact dfxp_document_regions_percent. Qed.
+Print Assumptions C13_dfxp_document_regions_percent.
+
+Example C13_ex_document_region :
+  let c := mkCfg true true (Some (640 # 1)) (Some (360 # 1)) in
+  let s := mkNset None [mkNlang (Some (mkLayout (Some (mkPoint (mkSize (64 # 1) PX) (mkSize (36 # 1) PX))) None None None None))
+                                [mkNcap None [mkNode 1 None]]] in
+  match dfxp_transform c s with
+  | Ok s' => Forall opt_nonneg (written_layouts s')
+             /\ map (fun kv => (snd kv, ra_origin (layout_attrs (fst kv)))) (region_map (written_layouts s'))
+                = [(RId 0, Some (lit "10% 10%")); (RDefault, None)]
+  | Err _ => False
+  end.
+Proof.
+  vm_compute. split; [|reflexivity].
+  repeat constructor; cbn; intros H; discriminate H.
+Qed.
+
+(* "WebVTT output never contains a non-percentage length" at the level of the printed TEXT (model/VttText.v: the string
+   _convert_positioning returns, request 1321): computed cue settings are [" align:<name>"] [" position:<n>%"] [" line:<n>%"]
+   [" size:<n>%"], every length a number (digits, optionally a point and one or two digits) followed by the percent sign -
+   in every configuration; lengths non-negative (a padding wider than the cue gives a negative size, outside the size language) *)
+From PV Require Import model.DfxpAlign model.VttText proofs.GeomPrint proofs.Pos13VttTextFacts.
+Theorem C13_vtt_text_percent : forall c lo v, vtt_convert_positioning c lo = Ok (VSet v) -> vs_nonneg v ->
+  forall z, In (Some z) [vs_position v; vs_line v; vs_size v] -> pct_text (size_str z).
+Proof. exact vtt_text_percent. Qed.
+Print Assumptions C13_vtt_text_percent.
+
+Example C13_ex_vtt_text :
+  let s v := mkSize v PCT in
+  let px v := mkSize v PX in
+  match vtt_convert_positioning (mkCfg true true (Some (640 # 1)) (Some (360 # 1)))
+          (Some (mkLayout (Some (mkPoint (px (64 # 1)) (px (36 # 1)))) (Some (mkStretch (px (333 # 1)) (px (36 # 1)))) None
+                          (Some (mkAlign (Some HRight) None)) None)) with
+  | Ok o => vtt_settings_text o = lit " align:right position:10% line:10% size:52.03%"
+  | Err _ => False
+  end.
+Proof. vm_compute. reflexivity. Qed.
